@@ -8,5 +8,6 @@ CONSTANTS
   MaxB = 2
   MaxF = 0
   Wide = FALSE
+  QVariants = 3
 INVARIANTS PositionIndependent OwnIndex OrderEquivariant
 CHECK_DEADLOCK FALSE
